@@ -1,7 +1,7 @@
 (* C07 proofs, part 6: the two refutation witnesses (vm_compute on concrete histories). *)
 From Coq Require Import ZArith NArith List Bool Lia.
-From Tinode Require Import Base.Util Pure.Acs Sys.Topic Sys.TopicTac Sys.TopicFrame Sys.TopicMarks Sys.TopicAcl
-  Sys.TopicAclProofs Sys.TopicAclInv Sys.TopicAclJoin Sys.TopicAclOwn Sys.TopicAclThm.
+From Tinode Require Import Base.Util Pure.Acs Sys.Topic Sys.TopicTac Sys.TopicFrame Sys.TopicMarks Sys.TopicAclC07
+  Sys.TopicAclC07Proofs Sys.TopicAclC07Inv Sys.TopicAclC07Join Sys.TopicAclC07Own Sys.TopicAclC07Thm.
 Import ListNotations.
 Open Scope Z_scope.
 
